@@ -2,7 +2,10 @@
 
 from __future__ import annotations
 
+import ast
+
 from ..connectmodel import Point, points, run_point_states
+from ..model import AnalysisError, norm
 from ..execmodel import ExecHooks, descriptors, make_session
 from ..interp import explore
 from ..pipeline import stages
@@ -91,9 +94,60 @@ def rule_file_naming(ctx):
 
 from .c13 import rule_no_implicit_tx_calls  # noqa: E402  (work that was never committed must be absent afterwards)
 
+DESTRUCTIVE_ATTRS = {"unlink", "rmdir", "rmtree", "remove", "removedirs", "rename", "replace", "truncate", "write_text", "write_bytes", "move", "copyfile",
+                     "copy", "copy2", "touch"}
+DESTRUCTIVE_DOTTED = {"os.remove", "os.unlink", "os.rmdir", "os.removedirs", "os.rename", "os.replace", "os.truncate", "shutil.rmtree", "shutil.move",
+                      "shutil.copy", "shutil.copyfile", "shutil.copy2"}
+
+
+def _destructive_calls(tree, dotted_of):
+    """calls that delete, move or overwrite a file: os / shutil / pathlib removers, and open(..., 'w'|'a'|'x'|'+')"""
+    out = []
+    for n in ast.walk(tree):
+        if not isinstance(n, ast.Call):
+            continue
+        d = dotted_of(n.func) or ""
+        if d in DESTRUCTIVE_DOTTED:
+            out.append((n, d))
+        elif isinstance(n.func, ast.Attribute) and n.func.attr in DESTRUCTIVE_ATTRS and not d.startswith(("re.", "string.", "sqlglot.", "pyarrow.", "pa.", "pc.")):
+            recv = norm(n.func.value)
+            # str.replace / dict.copy / expression.copy() / node.replace() are not file operations: require a path-like receiver
+            if any(w in recv.lower() for w in ("path", "file", "dir", "wal", "db_")) or "Path(" in recv:
+                out.append((n, f"{recv}.{n.func.attr}"))
+        elif (isinstance(n.func, ast.Name) and n.func.id == "open") or d in ("builtins.open", "io.open") or (isinstance(n.func, ast.Attribute) and n.func.attr == "open"
+                                                                                                    and "path" in norm(n.func.value).lower()):
+            mode = n.args[1] if len(n.args) > 1 else next((k.value for k in n.keywords if k.arg == "mode"), None)
+            if isinstance(mode, ast.Constant) and isinstance(mode.value, str) and any(c in mode.value for c in "wax+"):
+                out.append((n, f"open(mode={mode.value!r})"))
+    return out
+
+
+def rule_no_file_destruction(ctx):
+    """C18.g: only DuckDB touches the database files: no function of the package deletes, moves, truncates or overwrites a
+    file (a leftover `<db>.db.wal` is exactly where the committed work of a killed process lives)."""
+    prog = ctx.prog
+    # positive control: the predicate must recognise the idioms it is meant to find
+    control = ast.parse("import os, shutil\nfrom pathlib import Path\n"
+                        "def f(db_file, p):\n    Path(f'{db_file}.wal').unlink(missing_ok=True)\n    os.remove(db_file)\n    shutil.rmtree(p)\n    open(db_file, 'w')\n")
+    found = _destructive_calls(control, lambda e: norm(e))
+    if len(found) != 4:
+        raise AnalysisError(f"C18.g positive control: {len(found)} of 4 destructive idioms recognised")
+    n = 0
+    for mname, m in prog.modules.items():
+        for n_, what in _destructive_calls(m.tree, lambda e, m=m: prog.dotted(m, e)):
+            n += 1
+            ctx.ob("C18.g", f"{mname}: `{what}` does not delete / overwrite a file", False, m.loc(n_))
+            ctx.violation("C18.g", mname, "<module>", n_, m.loc(n_),
+                          f"`{norm(n_)[:80]}` deletes, moves or overwrites a file: fakesnow must leave the database files (and the write-ahead "
+                          f"log that holds the committed work of a killed process) to DuckDB")
+    ctx.ob("C18.g", f"no function of the package deletes, moves, truncates or overwrites a file ({len(prog.modules)} modules scanned)", n == 0, "fakesnow")
+    ctx.inventory["C18.g modules scanned"] = len(prog.modules)
+
+
 from .c14 import rule_typestate as rule_connect_typestate  # noqa: E402  (re-attaching a file must not disturb what it holds)
 
 RULES = [
+    ("C18.g", rule_no_file_destruction, ("quick", "thorough")),
     ("C18.f", rule_connect_typestate, ("quick", "thorough")),
     ("C18.e", rule_no_implicit_tx_calls, ("quick", "thorough")),
     ("C18.a", rule_file_naming, ("quick", "thorough")),
